@@ -30,7 +30,7 @@ def _twice(args):
         for di in range(1, len(case["datas"]) + 1):
             for npass, key in ((1, "tglobals"), (2, "tglobals2")):
                 tg = {k: J.to_py(v, case["objs"], [], {}) for k, v in case[key].items()}
-                data = {k: J.to_py(v, case["objs"], [], {}) for k, v in case["datas"][di - 1].items()}
+                data = J.resolve_tplrefs({k: J.to_py(v, case["objs"], [], {}) for k, v in case["datas"][di - 1].items()}, env)
                 try:
                     real = {"out": env.get_template(case["main"], globals=tg).render(**data), "err": ""}
                 except Exception as e:  # noqa
@@ -77,6 +77,8 @@ def run(ck):
     quick = ck.tier == "quick"
     n = 500 if quick else 8000
     cases = jgen.module_cases(ck.seed * 104729 + 5, n)
+    # loaded Template objects passed in as data and used as include / import targets
+    cases += jgen.module_cases(ck.seed * 104729 + 6, 150 if quick else 3000, start_id=len(cases) + 1, tplobjs=True)
     for bi, batch in enumerate(core.chunks(cases, 2500)):
         obs, r = jrun.spec_results("C05", batch, name=f"b{bi}", timeout=3000)
         ck.add_tlc(r, f"Jinja.tla include-import batch {bi} ({len(batch)} template_sets)")
@@ -85,7 +87,7 @@ def run(ck):
     ck.extra["template_sets"] = len(cases)
     ck.exhaustive = False
     ck.extra["excluded_shapes"] = ["from-import of underscore names (compile-time error by design)",
-                                   "Template objects passed as include targets"]
+                                   ]
 
 
 def replay(ck, rec):
